@@ -156,7 +156,8 @@ def run_impl(world, doc, ty, kind):
     except Exception as e:  # noqa
         return ("err", type(e).__name__)
     if isinstance(out, bytes):
-        return ("ok", "bytes", out.decode())
+        # bytes that are no longer UTF-8 (a broken insertion cut a character): keep them visible, never crash
+        return ("ok", "bytes", out.decode("utf-8", "backslashreplace"))
     if isinstance(out, SafeString):
         return ("ok", "safe", str(out))
     if isinstance(out, str):
@@ -183,7 +184,7 @@ def run_mw(world, body, ctype, streaming):
     if out is not resp:
         return ("err", "OtherResponseObject")
     data = b"".join(out.streaming_content) if streaming else out.content
-    return ("ok", data.decode())
+    return ("ok", data.decode("utf-8", "backslashreplace"))
 
 
 # ---------------------------------------------------------------------------------------------------------------
